@@ -4,5 +4,5 @@ CONSTANTS
   Width = "thorough"
   MaxForge = 3
   ScenarioSet = "e2e_quick"
-INVARIANTS TypeOK MakeJoinExact MakeLeaveExact TemplateShape SendJoinExact InviteExact InviteV3Exact ReturnsCountersigned PerformJoinExact NoJoinWithoutBothHandlers BannedNeverJoins UnforgedPublicJoinSucceeds UnforgedRestrictedJoinSucceeds TamperedNeverAccepted Emit
+INVARIANTS TypeOK MakeJoinExact MakeLeaveExact TemplateShape SendJoinExact InviteExact InviteV3Exact ReturnsCountersigned PerformJoinExact NoJoinWithoutBothHandlers BannedNeverJoins RetrySucceedsWhereAFreshJoinWould UnforgedPublicJoinSucceeds UnforgedRestrictedJoinSucceeds TamperedNeverAccepted Emit
 CHECK_DEADLOCK FALSE
